@@ -185,7 +185,8 @@ def run_shard(ctx, shard):
             for key, msg in res:
                 acc.violation(key, {"n": n, "matrix": [list(r) for r in matrix], "blocks": [list(b) for b in blocks], "key": key},
                               "n=%d matrix=%r DEX files (add order)=%r: %s" % (n, matrix, blocks, msg))
-        acc.count("matrices")
+        if kind != "full4" or shard[1] == 0:
+            acc.count("matrices")
     if kind == "full4" and shard[1] == 0:
         acc.sample({"classes": 4, "matrix": "all pairs: all interactions", "dex_files_in_add_order": parts[-1]})
     if kind == "m3" and shard[2] == 2:
